@@ -221,6 +221,19 @@ Definition shift_opt (o : option nat) (grow : bool) (k : nat) (site : N) : res (
   | Some x => if grow then Ok (Some (x + k)) else y <- usub x k site ;; Ok (Some y)
   end.
 
+(** [(x as isize + shift) as usize] for the EDNS offset: a negative sum does not panic in Rust, it
+    wraps to a value above 2^63 that [nat] cannot hold. This arises only when the record being
+    removed is the OPT record itself and its data is longer than its offset
+    (offset_edns - rr_len = offset - rdlen); [delete] overwrites [offset_edns] with [None] right
+    afterwards (rr_iterator.rs:321), so the value is never read. The model writes [WRAPPED], an
+    offset no packet of at most 65535 bytes has. *)
+Definition WRAPPED : nat := N.to_nat 65536.
+Definition shift_opt_wrap (o : option nat) (grow : bool) (k : nat) : res (option nat) :=
+  match o with
+  | None => Ok None
+  | Some x => if grow then Ok (Some (x + k)) else if k <=? x then Ok (Some (x - k)) else Ok (Some WRAPPED)
+  end.
+
 (** rr_iterator.rs:197, repaired (the grow branch moves [offset..packet_len]; the EDNS offset
     follows records that move; a resized question drops the cached question). [grow]/[k] encode
     the signed [shift]. *)
@@ -248,7 +261,7 @@ Definition m_resize_rr (grow : bool) (k : nat) : cm unit :=
       v1 <-- getv ;; it1 <-- getit ;;
       sec <-- clift (it_current_section v1 it1) ;;
       oed <-- clift (if opt_lt (Some offset) (pp_offset_edns v1)
-                     then shift_opt (pp_offset_edns v1) grow k 656 else Ok (pp_offset_edns v1)) ;;
+                     then shift_opt_wrap (pp_offset_edns v1) grow k else Ok (pp_offset_edns v1)) ;;
       let cached := if section_eqb sec SQuestion then None else pp_cached v1 in
       let is s := section_eqb sec s in
       oar <-- clift (if is SNameServers || is SAnswer || is SQuestion
